@@ -765,7 +765,7 @@ class C10(Prop):
     id = "C10"
     module = "C10"
     theorems = ["C10_rejects", "C10_sat_mask_bits", "C10_mask_offsets", "C10_masks", "C10_rows", "C10_decode_ids", "C10_decode_cells", "C10_msm_specs_ok", "C10_segment_decodes",
-                "C10_msm_layouts_tail", "C10_frame_decodes"]
+                "C10_msm_layouts_tail", "C10_frame_decodes", "C10_decoded_order"]
     partial_note = ("partial: everything the MSM encoder accepts satisfies the property's preconditions; for every accepted input in any caller order the three masks are written first "
                     "(64 + 32 + |G|x|S| bits), the satellite mask has exactly the listed satellites' bits (= the satellites of the cells), the signal mask exactly the cells' signal "
                     "identifiers, and the cell mask exactly the bits at each cell's row-major index (rank of satellite x number of signals + rank of signal), no two cells on one index; "
@@ -773,7 +773,9 @@ class C10(Prop):
                     "(satellite, signal identifier), the same list for every arrangement of the input (order independence); the decoder reads identifiers of set mask bits in strictly ascending order and the cells in row-major "
                     "order; every non-empty segment the encoder accepts decodes without error, with the same masks, the listed satellites ascending, exactly the encoder's cells and as many rows as "
                     "given, consuming exactly the bits written; C10_frame_decodes: at the public API, for every builder history, the frame of an accepted MSM message with a non-empty segment is "
-                    "accepted by MessageFrame::new, carries the number and get_message returns the typed message (never Corrupt) with as many rows as given. That the decoded row contents are the encoded ones in normal form (column-wise field round trip) is covered by the "
+                    "accepted by MessageFrame::new, carries the number and get_message returns the typed message (never Corrupt) with as many rows as given; C10_decoded_order: every segment the decoder "
+                    "accepts, whatever the frame, has its satellite rows in strictly ascending identifier order and its signal rows in strictly ascending (satellite, signal identifier) order, each "
+                    "on a listed satellite and a recognised signal. That the decoded row contents are the encoded ones in normal form (column-wise field round trip) is covered by the "
                     "ROUNDTRIP correspondence and the probe that recomputes masks and rows independently")
     table_obligations = ["msm_mask_offsets", "sig_tables_ok"]
     rule = ("ROUNDTRIP of MSM messages of all 49 types: admissible (S, G, C) with random permutations of the satellite and cell lists, up to 64 cells, and one generator per "
